@@ -352,6 +352,7 @@ pub fn run(tier: Tier) -> i32 {
         }
     }
     rep.set("rule", json!("Enumerated completely in both tiers: shape in {rect, circle, ellipse, line} x per-axis constraint pair (6 of {start, end, centre, length}) for x and for y x 4 boxes (negative/fractional origin, unequal sides; squares for circle) x every spelling: alternative attribute names (x/x1, width/rx, r), both attribute orders, shorthand xy/xy1/xy2/cxy/wh/rxy with separators {space, comma, comma-space, two spaces} and single-value form where both values coincide, two shorthands at once. Oracle: the output element carries exactly its native geometry for the box (3-decimal tolerance), no shorthand or foreign geometry attribute, and all spellings of one case give identical attributes. Second leg: dx/dy vs dxy and dw/dh vs dwh (absolute, percent, one value, two values, separators) against the expected moved/resized box. Non-trivial = all spellings accepted and equal."));
+    rep.set("also", json!("Also 11 equivalence pairs: rxy on rect / circle / ellipse against rx + ry (and r), dx / dy / dxy on shapes whose position is defaulted, dwh on a rect whose extent is given by start + end or centre + length."));
     let st = run_space(bases.len(), |i| check_base(bases[i].0, bases[i].1, bases[i].2, bases[i].3));
     let s = &bases[bases.len() / 3];
     rep.sample(json!({"shape": s.0, "x_pair": format!("{:?}", s.1), "y_pair": format!("{:?}", s.2), "box": format!("{:?}", s.3), "spellings": variants(s.0, s.1, s.2, s.3).iter().take(6).map(|v| v.attrs.clone()).collect::<Vec<_>>()}));
